@@ -33,11 +33,40 @@ Definition connected (sts : list (status * status)) (i j : nat) : bool :=
   Nat.eqb i j || existsb (Nat.eqb j) (neighbours sts i)
   || existsb (fun a => existsb (Nat.eqb a) (neighbours sts j)) (neighbours sts i).
 
+(* the hypothesis of the copy theorem (Proofs/ZCopyP.v: copy_sound_proof) measured on the copy groups of this case:
+   largest deviation of any destination pair from being the source pair moved by one translation (positions, ends,
+   half lengths, directions, radii, signs; a different object counts as infinite), and the number of copied pairs *)
+Definition fmax (a b : float) : float := if PrimFloat.ltb a b then b else a.
+Definition fabs (a : float) : float := PrimFloat.abs a.
+Definition v3dev (a b : @V3 FNum) : float :=
+  fmax (fabs (PrimFloat.sub (vx a) (vx b))) (fmax (fabs (PrimFloat.sub (vy a) (vy b))) (fabs (PrimFloat.sub (vz a) (vz b)))).
+Definition pairdev (a b : float * float) : float := fmax (fabs (PrimFloat.sub (fst a) (fst b))) (fabs (PrimFloat.sub (snd a) (snd b))).
+Definition shift_dev (obs : bool) (t : @V3 FNum) (p q : @zpulse FNum) : float :=
+  let scale := fmax (fst (zp_len p)) (snd (zp_len p)) in
+  let d := fmax (v3dev (zp_point q) (v3add (zp_point p) t))
+          (fmax (v3dev (fst (zp_ends q)) (v3add (fst (zp_ends p)) t))
+          (fmax (v3dev (snd (zp_ends q)) (v3add (snd (zp_ends p)) t))
+          (fmax (pairdev (zp_len q) (zp_len p))
+          (fmax (PrimFloat.mul scale (v3dev (fst (zp_dir q)) (fst (zp_dir p))))
+          (fmax (PrimFloat.mul scale (v3dev (snd (zp_dir q)) (snd (zp_dir p))))
+          (fmax (if obs then 0%float else pairdev (zp_r q) (zp_r p))
+          (fmax (PrimFloat.mul scale (pairdev (zp_dsgn q) (zp_dsgn p)))
+                (if obs then 0%float else PrimFloat.mul scale (pairdev (zp_gsgn q) (zp_gsgn p)))))))))) in
+  if Nat.eqb (zp_obj p) (zp_obj q) then PrimFloat.div d scale else infinity.
+Definition copy_dev (ps : list (@zpulse FNum)) : float * nat :=
+  fold_left (fun acc gr =>
+    let src := fst gr in
+    fold_left (fun acc2 dst =>
+      let t := v3sub (zp_point (P ps (fst dst))) (zp_point (P ps (fst src))) in
+      let d := fmax (shift_dev true t (P ps (fst src)) (P ps (fst dst))) (shift_dev false t (P ps (snd src)) (P ps (snd dst))) in
+      (fmax (fst acc2) d, S (snd acc2))) (snd gr) acc) (copy_groups ps) (0%float, O).
+
 Definition z_case (f tol : float) (has_ground : bool) (os : list (@obj FNum)) (radii : list float) : list float :=
   let t := build tol os in
   let zps := map (zpulse_of os radii) (tp_pulses t) in
   let Z := zmatrix_code (f_w f) (f_srm f) (f_w2 f) (connected (tp_status t)) zps has_ground in
-  flat_map (fun row => flat_map (fun z => [fst z; snd z]) row) Z.
+  flat_map (fun row => flat_map (fun z => [fst z; snd z]) row) Z
+  ++ (let cd := copy_dev zps in [fst cd; @of_Z FNum (Z.of_nat (snd cd))]).
 
 From PM Require Import Model.NearField.
 (* stage `nf`: near field at the given points *)
